@@ -13,6 +13,12 @@ Z14 — character references, backslashes and percent signs, complete and cut sh
       definition, fence info string, code span, autolink, attribute value), with and without a final newline.
       Added after the seeded change C01-r2m2 (an unterminated numeric reference at the end of the string
       indexed past it) was missed: in the other zones something always follows the digits.
+Z15 — container closure shapes, enumerated: every three-level nesting of block quote / bullet list / ordered
+      list holding a paragraph and one more line (text, a list, a quote, a heading, a fence), closed by a
+      separator line in the outer context (bare '>', '> ', blank) and continued at the outer level, the
+      middle level, the top level, or by a new item of the middle container.
+      Added after the seeded change C04-r2m1 (ordered-list ends not flushed before the closing BLANK) was
+      caught by one document of one seed only.
 """
 import hashlib
 import os
@@ -87,6 +93,31 @@ def z14(i):
 
 
 U.ZONES["Z14"] = (z14, lambda: len(REFS) * len(PLACES) * 2)
+
+
+# ------------------------------------------------------------------ Z15
+_FIRST = {"q": "> ", "u": "- ", "o": "1. "}
+_CONT = {"q": "> ", "u": "  ", "o": "   "}
+_SECOND = ["more", "1. list 1", "- item", "> q", "# h", "```"]
+_KINDS = [a + b + c for a in "quo" for b in "quo" for c in "quo"]
+
+
+def _z15_docs():
+    out = []
+    for k in _KINDS:
+        c1, c2, c3 = k
+        first = _FIRST[c1] + _FIRST[c2] + _FIRST[c3] + "para"
+        for sec in _SECOND:
+            second = _CONT[c1] + _CONT[c2] + _CONT[c3] + sec
+            seps = ([">", "> ", ""] if c1 == "q" else ["", _CONT[c1].rstrip() or "", _CONT[c1] + (">" if c2 == "q" else "")])
+            for sep in seps:
+                for fol in (_CONT[c1] + "text", _CONT[c1] + _CONT[c2] + "text", "text", _CONT[c1] + _FIRST[c2] + "item"):
+                    out.append("\n".join([first, second, sep, fol]) + "\n")
+    return out
+
+
+_Z15 = _z15_docs()
+U.ZONES["Z15"] = (lambda i: _Z15[i], lambda: len(_Z15))
 
 
 def content_hash():
